@@ -35,6 +35,8 @@ T_OPT_INT = 'option Z'
 T_PTY = 'pty'
 T_FRAC = '(Z * Z)'
 ORACLE = ('repr_float', '(Z * Z) -> str')
+T_LANG = 'lang'
+T_OPT_STR = 'option str'
 PYDSDL_CLASSES = ('BooleanType', 'IntegerType', 'UnsignedIntegerType', 'SignedIntegerType', 'FloatType', 'VoidType', 'PrimitiveType',
                   'ArithmeticType')
 
@@ -51,6 +53,67 @@ class Tr5(pyfun_tr.Tr):
         self.oracle = oracle
 
     def expr(self, e, env):
+        # enumeration member `self` (modelled by its value): self.value, self.to_*(...)
+        if (isinstance(e, ast.Attribute) and isinstance(e.value, ast.Name) and e.value.id == 'self' and e.attr == 'value'
+                and env.get('self', (None, None))[1] == T_INT):
+            return env['self'][0], T_INT
+        if (isinstance(e, ast.Call) and isinstance(e.func, ast.Attribute) and isinstance(e.func.value, ast.Name) and e.func.value.id == 'self'
+                and env.get('self', (None, None))[1] == T_INT and e.func.attr in ('to_c_int', 'to_std_int', 'to_c_float') and not e.keywords):
+            args = [self.expr(a, env) for a in e.args]
+            want = [] if e.func.attr == 'to_c_float' else [T_BOOL]
+            if [t for _, t in args] != want:
+                raise Unsupported('arguments of self.%s' % e.func.attr)
+            return '(CFit_%s %s%s)' % (e.func.attr, env['self'][0], ''.join(' ' + a for a, _ in args)), T_STR
+        # <option Z>.to_c_type(value, language[, "prefix"]) on the result of get_best_fit
+        if isinstance(e, ast.Call) and isinstance(e.func, ast.Attribute) and e.func.attr == 'to_c_type' and not e.keywords and len(e.args) in (2, 3):
+            fit, tf = self.expr(e.func.value, env)
+            v, tv = self.expr(e.args[0], env)
+            l, tl = self.expr(e.args[1], env)
+            if tf != T_OPT_INT or tv != T_PTY or tl != T_LANG:
+                raise Unsupported('to_c_type(%s; %s, %s)' % (tf, tv, tl))
+            pfx = 'None'
+            if len(e.args) == 3:
+                if not (isinstance(e.args[2], ast.Constant) and isinstance(e.args[2].value, str)):
+                    raise Unsupported('to_c_type prefix')
+                pfx = '(Some %s)' % pyfun_tr._str_lit(e.args[2].value)
+            return '(match %s with Some fit_ => CFit_to_c_type fit_ %s %s %s | None => None end)' % (fit, v, l, pfx), T_OPT_STR
+        # language.get_config_value_as_bool("use_standard_types") / language.named_types["boolean"]
+        if (isinstance(e, ast.Call) and isinstance(e.func, ast.Attribute) and e.func.attr == 'get_config_value_as_bool' and len(e.args) == 1
+                and isinstance(e.args[0], ast.Constant) and e.args[0].value == 'use_standard_types' and not e.keywords):
+            l, tl = self.expr(e.func.value, env)
+            if tl != T_LANG:
+                raise Unsupported('get_config_value_as_bool on %s' % tl)
+            return '(lang_use_standard_types %s)' % l, T_BOOL
+        if (isinstance(e, ast.Subscript) and isinstance(e.value, ast.Attribute) and e.value.attr == 'named_types'
+                and isinstance(e.slice, ast.Constant) and e.slice.value == 'boolean'):
+            l, tl = self.expr(e.value.value, env)
+            if tl != T_LANG:
+                raise Unsupported('named_types of %s' % tl)
+            return '(lang_named_boolean %s)' % l, T_STR
+        # {CastMode.SATURATED: True, CastMode.TRUNCATED: False}[t.cast_mode]
+        if isinstance(e, ast.Subscript) and isinstance(e.value, ast.Dict) and isinstance(e.slice, ast.Attribute) and e.slice.attr == 'cast_mode':
+            t, tt = self.expr(e.slice.value, env)
+            if tt != T_PTY:
+                raise Unsupported('cast_mode of %s' % tt)
+            arms = {}
+            for k, v in zip(e.value.keys, e.value.values):
+                ku = ast.unparse(k)
+                if not ku.startswith('pydsdl.PrimitiveType.CastMode.') or not (isinstance(v, ast.Constant) and isinstance(v.value, bool)):
+                    raise Unsupported('cast mode table entry %s' % ku)
+                arms[ku.rsplit('.', 1)[1]] = 'true' if v.value else 'false'
+            if set(arms) != {'SATURATED', 'TRUNCATED'}:
+                raise Unsupported('cast mode table keys %s' % sorted(arms))
+            return ('(match pty_cast_mode %s with CM_SATURATED => %s | CM_TRUNCATED => %s end)' % (t, arms['SATURATED'], arms['TRUNCATED'])), T_BOOL
+        if (isinstance(e, ast.Compare) and len(e.ops) == 1 and isinstance(e.ops[0], ast.In) and isinstance(e.comparators[0], ast.Tuple)
+                and all(isinstance(x, ast.Constant) and type(x.value) is int for x in e.comparators[0].elts) and e.comparators[0].elts):
+            a, ta = self.expr(e.left, env)
+            if ta != T_INT:
+                raise Unsupported('in-tuple test on %s' % ta)
+            r = ' || '.join('(Z.eqb %s %s)' % (a, pyfun_tr._int_lit(x.value)) for x in e.comparators[0].elts)
+            return '(%s)' % r, T_BOOL
+        if (isinstance(e, ast.Compare) and len(e.ops) == 1 and isinstance(e.ops[0], ast.Is) and isinstance(e.comparators[0], ast.Constant)
+                and e.comparators[0].value is None and isinstance(e.left, ast.Name) and env.get(e.left.id, (None, None))[1] == T_OPT_STR):
+            return '(opt_is_none %s)' % env[e.left.id][0], T_BOOL
         if isinstance(e, ast.Call):
             f = e.func
             if isinstance(f, ast.Name) and f.id == 'int' and len(e.args) == 1 and not e.keywords:
@@ -108,6 +171,9 @@ class Tr5(pyfun_tr.Tr):
                 out = [pyfun_tr._str_lit(pieces[0])]
                 for a, p in zip(e.args, pieces[1:]):
                     v, tv = self.expr(a, env)
+                    if tv == T_STR:
+                        out += [v, pyfun_tr._str_lit(p)]
+                        continue
                     if tv != T_INT:
                         raise Unsupported('format argument of type %s' % tv)
                     out += ['(py_str_int %s)' % v, pyfun_tr._str_lit(p)]
@@ -130,6 +196,8 @@ class Tr5(pyfun_tr.Tr):
             c, tc = self.expr(e.test, env)
             a, ta = self.expr(e.body, env)
             b, tb = self.expr(e.orelse, env)
+            if ta == T_STR and tb == T_OPT_STR:
+                b, tb = '(opt_str_get %s)' % b, T_STR      # guarded by `... is None` in the supported shapes; None reads as ""
             if tc != T_BOOL or ta != tb:
                 raise Unsupported('conditional expression %s ? %s : %s' % (tc, ta, tb))
             return '(if %s then %s else %s)' % (c, a, b), ta
@@ -336,6 +404,98 @@ def mexp_of(expr: str) -> str:
     return out
 
 
+
+# ---- emit conditions: under which Jinja conditions / loops is a constant rendered at all -------------------------------------
+
+_OPENERS = ('if', 'for', 'macro', 'block', 'call', 'filter', 'with', 'raw', 'autoescape', 'ifuses', 'ifnuses')
+
+
+def _blank_comments(text: str) -> str:
+    return re.sub(r'\{#.*?#\}', lambda m: ' ' * len(m.group(0)), text, flags=re.S)
+
+
+def enclosing(text: str, pos: int) -> typing.List[typing.Tuple[str, str]]:
+    """stack of the Jinja blocks open at offset pos, innermost last, as (kind, header); for an `if` the kind is the branch that is
+    open ('if', 'elif', 'else'); entries outside the innermost macro / block are dropped"""
+    stack: typing.List[typing.List[str]] = []
+    for m in re.finditer(r'\{%-?\s*(\w+)(.*?)-?%\}', text, flags=re.S):
+        if m.start() >= pos:
+            break
+        if m.end() > pos:
+            raise Unsupported('template scan: anchor inside a Jinja tag')
+        kw, rest = m.group(1), ' '.join(m.group(2).split())
+        if kw in _OPENERS or (kw == 'set' and '=' not in rest):
+            stack.append([kw, rest, kw])
+        elif kw in ('elif', 'else'):
+            if not stack or stack[-1][0] not in ('if', 'for', 'ifuses', 'ifnuses'):
+                raise Unsupported('template scan: stray %s' % kw)
+            stack[-1][2] = kw if stack[-1][0] == 'if' else stack[-1][0] + '-else'
+            if kw == 'elif':
+                stack[-1][1] = rest
+        elif kw.startswith('end'):
+            if not stack or stack[-1][0] != kw[3:]:
+                raise Unsupported('template scan: unbalanced %s' % kw)
+            stack.pop()
+    out: typing.List[typing.Tuple[str, str]] = []
+    for kind, header, branch in stack:
+        if kind in ('macro', 'block'):
+            out = []
+        elif kind == 'set':
+            continue
+        else:
+            out.append((branch, header))
+    return out
+
+
+def mcond_of(kind: str, header: str) -> str:
+    h = header.strip()
+    root = r'(?:t|T|type|composite_type)'
+    if kind == 'if':
+        if re.fullmatch(root + r'\.has_fixed_port_id', h):
+            return '(CondHas SrcPortId)'
+        if re.fullmatch(root + r'\.fixed_port_id is not none', h):
+            return '(CondNotNone SrcPortId)'
+        if re.fullmatch(root + r'\.fixed_port_id', h):
+            return '(CondTruthy SrcPortId)'
+        if re.fullmatch(root + r' is not ServiceType', h):
+            return 'CondNotService'
+        return 'CondOther'
+    if kind == 'for':
+        if re.fullmatch(r'\w+ in ' + root + r'\.constants', h):
+            return 'CondEach'
+        if re.fullmatch(r'f in ' + root + r'\.fields_except_padding if f\.data_type is ArrayType', h):
+            return 'CondEachArray'
+        return 'CondOther'
+    return 'CondOther'
+
+
+def emit_rows() -> typing.List[typing.Tuple[str, str, str]]:
+    rd = lambda rel: _blank_comments(gen.read_repo('src/nunavut/lang/' + rel))  # noqa: E731
+    cdef, cbase = rd('c/templates/definitions.j2'), rd('c/templates/base.j2')
+    cppc, pyb = rd('cpp/templates/_composite_type.j2'), rd('py/templates/base.j2')
+    anchors = [
+        ('TgtC', 'KPortId', cbase, r'#define\s+\{\{\s*T\s*\|\s*full_reference_name\s*\}\}_FIXED_PORT_ID_\s'),
+        ('TgtCpp', 'KPortId', cppc, r'\sFixedPortId\s*='),
+        ('TgtPy', 'KPortId', pyb, r'\s_FIXED_PORT_ID_\s*='),
+        ('TgtC', 'KConst', cdef, r'#define\s+\{\{\s*t\s*\|\s*full_reference_name\s*\}\}_\{\{\s*constant\.name\s*\}\}'),
+        ('TgtCpp', 'KConst', cppc, r'static constexpr\s+\{\{\s*constant\.data_type\s*\|\s*declaration\s*\}\}'),
+        ('TgtPy', 'KConst', pyb, r'\{\{\s*target\s*\}\}\s*=\s*\{\{\s*c\.value\.as_native_integer\(\)'),
+        ('TgtC', 'KCap', cdef, r'#define\s+\{\{\s*t\s*\|\s*full_reference_name\s*\}\}_\{\{\s*f\.name\s*\}\}_ARRAY_CAPACITY_\s'),
+        ('TgtC', 'KExtentBytes', cdef, r'#define\s+\{\{\s*ref\s*\}\}_EXTENT_BYTES_\s'),
+        ('TgtC', 'KBufferBytes', cdef, r'#define\s+\{\{\s*ref\s*\}\}_SERIALIZATION_BUFFER_SIZE_BYTES_\s'),
+    ]
+    rows = []
+    for tg, key, text, pat in anchors:
+        m = _one(pat, text, 'emit anchor %s %s' % (tg, key))
+        conds = enclosing(text, m.start())
+        if tg == 'TgtPy' and key == 'KConst':
+            # the integer constant line sits in the type dispatch `elif c.data_type is IntegerType` inside the loop over constants:
+            # the dispatch itself is total (bool / integer / float / assert False); what matters here is the loop header
+            conds = [c for c in conds if c[0] == 'for' or not re.fullmatch(r'c\.data_type is \w+Type', c[1])]
+        rows.append((tg, key, '[%s]' % '; '.join(mcond_of(k, h) for k, h in conds)))
+    return rows
+
+
 CMP = {'<': 'CmpLt', '<=': 'CmpLe', '>': 'CmpGt', '>=': 'CmpGe'}
 
 
@@ -410,7 +570,75 @@ def scan_templates() -> str:
         'Definition py_extent_mod8_asserted : bool := %s.' % ('true' if py_asserts else 'false'),
         'Definition c_capcheck : capcheck :=\n  %s.' % c_cc,
         'Definition cpp_capcheck : capcheck :=\n  %s.' % cpp_cc,
-        'Definition c_nested_size_bytes : mexp := %s.' % nested]
+        'Definition c_nested_size_bytes : mexp := %s.' % nested,
+        'Definition emit_table : list emit :=\n  [%s].' % ';\n   '.join(
+            '{| em_tgt := %s; em_key := %s; em_conds := %s |}' % r for r in emit_rows())]
+    return '\n\n'.join(out)
+
+
+# ---------------------------------------------------------------------------------------------------------------------
+# storage types (C01's `storage_ok` proviso): which C / C++ type a primitive field or constant is declared with
+# ---------------------------------------------------------------------------------------------------------------------
+
+def _pin(fn: ast.FunctionDef, expected_return: str) -> None:
+    body = [x for x in fn.body if not (isinstance(x, ast.Expr) and isinstance(x.value, ast.Constant))]
+    if len(body) != 1 or ast.unparse(body[0]) != expected_return:
+        raise Unsupported('%s: body is not `%s`' % (fn.name, expected_return))
+
+
+def storage_part(jj: ast.Module, cc: ast.Module) -> str:
+    import yaml
+    cpp = gen.parse_repo('src/nunavut/lang/cpp/__init__.py')
+    enum = enum_members(cc, '_CFit')
+    out = []
+    m = lambda name: pyfun_tr.find_function(cc, '_CFit', name)  # noqa: E731
+    for name, params, ret, partial in (('to_std_int', [('self', T_INT), ('is_signed', T_BOOL)], T_STR, False),
+                                       ('to_c_int', [('self', T_INT), ('is_signed', T_BOOL)], T_STR, False),
+                                       ('to_c_float', [('self', T_INT)], T_STR, False),
+                                       ('to_c_type', [('self', T_INT), ('value', T_PTY), ('language', T_LANG), ('inttype_prefix', T_OPT_STR)],
+                                        T_STR, True)):
+        fn = m(name)
+        _decorators_ok(fn, ())
+        out.append(translate(fn, 'CFit_' + name, params, ret, partial, enum, skip_params=('cls',)))
+    fn = pyfun_tr.find_function(cc, None, 'filter_type_from_primitive')
+    _decorators_ok(fn, ('template_language_filter',))
+    out.append(translate(fn, 'c_filter_type_from_primitive', [('language', T_LANG), ('value', T_PTY)], T_STR, True, enum))
+    fn = pyfun_tr.find_function(cpp, None, 'filter_type_from_primitive')
+    _decorators_ok(fn, ('template_language_filter',))
+    out.append(translate(fn, 'cpp_filter_type_from_primitive', [('language', T_LANG), ('value', T_PTY)], T_STR, True, enum))
+    fn = pyfun_tr.find_function(cpp, None, 'filter_to_standard_bit_length')
+    _decorators_ok(fn, ())
+    out.append(translate(fn, 'cpp_filter_to_standard_bit_length', [('t', T_PTY)], T_INT, True, enum))
+    fn = pyfun_tr.find_function(jj, 'DSDLCodeGenerator', 'is_saturated')
+    _decorators_ok(fn, ('staticmethod',))
+    out.append(translate(fn, 'is_saturated', [('t', T_PTY)], T_BOOL, True))
+    # the C++ filters that merely delegate to the C ones, and the C constant filter
+    imports = [ast.unparse(x) for x in cpp.body if isinstance(x, ast.ImportFrom) and x.module == 'nunavut.lang.c']
+    if 'from nunavut.lang.c import _CFit' not in imports or 'from nunavut.lang.c import filter_literal as c_filter_literal' not in imports:
+        raise Unsupported('cpp/__init__.py does not import _CFit / filter_literal from nunavut.lang.c: %s' % imports)
+    _pin(pyfun_tr.find_function(cpp, None, 'filter_constant_value'),
+         'return c_filter_literal(language, constant.value.native_value, constant.data_type)')
+    _pin(pyfun_tr.find_function(cpp, None, 'filter_literal'), 'return c_filter_literal(language, value, ty, cast_format)')
+    _pin(pyfun_tr.find_function(cc, None, 'filter_constant_value'),
+         'return filter_literal(language, constant.value.native_value, constant.data_type)')
+    for name, tree in (('cpp.filter_constant_value', cpp), ('cpp.filter_literal', cpp), ('c.filter_constant_value', cc)):
+        _decorators_ok(pyfun_tr.find_function(tree, None, name.split('.')[1]), ('template_language_filter',))
+    out.append('Definition literal_filters_delegate : bool := true.')
+    # language configuration (properties.yaml)
+    props = yaml.safe_load(gen.read_repo('src/nunavut/lang/properties.yaml'))
+    for key, sec in (('c', 'nunavut.lang.c'), ('cpp', 'nunavut.lang.cpp')):
+        cfg = props[sec]
+        nt = cfg['named_types']
+        ust = cfg.get('use_standard_types', cfg.get('options', {}).get('use_standard_types'))
+        if not isinstance(ust, bool):
+            raise Unsupported('properties.yaml: %s use_standard_types is %r' % (sec, ust))
+        cf = cfg.get('options', {}).get('cast_format', cfg.get('cast_format'))
+        if not isinstance(cf, str):
+            raise Unsupported('properties.yaml: %s cast_format is %r' % (sec, cf))
+        out.append('Definition %s_lang : lang := {| lang_use_standard_types := %s; lang_named_boolean := %s |}.'
+                   % (key, 'true' if ust else 'false', pyfun_tr._str_lit(str(nt['boolean']))))
+        out.append('Definition %s_named_float_32 : str := %s.\nDefinition %s_named_float_64 : str := %s.\nDefinition %s_cast_format : str := %s.'
+                   % (key, pyfun_tr._str_lit(str(nt['float_32'])), key, pyfun_tr._str_lit(str(nt['float_64'])), key, pyfun_tr._str_lit(cf)))
     return '\n\n'.join(out)
 
 
@@ -432,6 +660,7 @@ def gen_c05() -> typing.Tuple[bool, str]:
         fn = pyfun_tr.find_function(cc, None, 'filter_to_standard_bit_length')
         _decorators_ok(fn, ())
         parts.append(translate(fn, 'filter_to_standard_bit_length', [('t', T_PTY)], T_INT, True, enum))
+        parts.append(storage_part(jj, cc))
         fn = pyfun_tr.find_function(cc, None, 'filter_literal')
         _decorators_ok(fn, ('template_language_filter',))
         before, int_body, float_body = literal_branches(fn)
@@ -453,7 +682,7 @@ def gen_c05() -> typing.Tuple[bool, str]:
         parts.append(translate(fn, 'filter_literal_float_expr', [('value', T_FRAC)], T_STR, False, body=[float_body[0]] + ret_expr,
                                oracle=True))
         parts.append(scan_templates())
-    except (Unsupported, SyntaxError, OSError) as ex:
+    except (Unsupported, SyntaxError, OSError, KeyError, ImportError) as ex:
         gen.write_if_changed(OUT, HEAD + '(* translator failed closed: %s *)\n' % str(ex).replace('*)', '* )'))
         return False, 'C05 translator failed closed: %s' % ex
     gen.write_if_changed(OUT, HEAD + '\n\n'.join(parts) + '\n')
